@@ -57,6 +57,34 @@ def canon_impl(res):
     return "status:%s" % res["status"]
 
 
+EXC_LINE = __import__("re").compile(r"^([A-Za-z_][\w.]*)(?::|$)")
+
+# the requests of C15_exception_classes_reached (lean/Props/C15.lean), run against the implementation too
+REACHED = [("/d", ""), ("/d.dds", "a[x]"), ("/d.dds", "a[1:2:3:4]"), ("/d.dds", "a[3]"), ("/d.dds", "dap4.ce=a"), ("/d.foo", ""),
+           ("/d.dds", "zz.p"), ("/d.dds", "("), ("/d.dds", "a.b"), ("/d.dmr", "")]
+REACHED_SPEC = {"name": "d", "vars": [{"k": "b", "name": "a", "dt": "i4", "shape": [3], "dims": [], "data": [5, 6, 7]}]}
+
+
+def impl_exc_class(res):
+    """the class of the exception the guarded region caught, read off the traceback in the error document (or the class
+    that escaped); None for a 200"""
+    if res["exc"]:
+        return res["exc"]
+    if res["status"] != 500 or res["body"] is None:
+        return None
+    try:
+        m = G.ERR_RE.match(res["body"].decode("utf-8"))
+    except Exception:
+        return "?"
+    if not m:
+        return "?"
+    for line in reversed(m.group(2).strip('"').split("\n")):
+        mm = EXC_LINE.match(line)
+        if mm and not line.startswith(" "):
+            return mm.group(1).rsplit(".", 1)[-1]
+    return "?"
+
+
 def judge(ctx, res, path, query, valid, where, case, cls=None, hs_cls=None):
     """the property, read directly off the response"""
     ext = G.ext_of(path)
@@ -153,6 +181,15 @@ def explore(ctx, tier, search=False):
         n_ds = 150
     cases = []
     pinned_probe = []
+    exc_cases = []
+    exc_examples = {}
+    app0 = BaseHandler(G.build(REACHED_SPEC))
+    sx0 = G.ds_sexp(REACHED_SPEC)
+    for path, q in REACHED:
+        res = G.run_request(app0, path, q)
+        case = {"app": "handler", "path": path, "query": q, "dataset": sx0, "class": "reached/fixed"}
+        judge(ctx, res, path, q, False, "handler", case)
+        exc_cases.append(("h-exc %s %s %s" % (sx0, G.hx(path), G.hx(q)), res, case))
     for di in range(n_ds):
         spec = G.gen_dataset(rng, ambiguous=rng.random() < 0.3)
         sx = G.ds_sexp(spec)
@@ -183,6 +220,7 @@ def explore(ctx, tier, search=False):
             verdict = judge(ctx, res, path, q, valid, "handler", case, hs_cls=hs_cls)
             impl = canon_impl(res)
             cases.append(("h-handle %s %s %s" % (sx, G.hx(path), G.hx(q)), impl, case))
+            exc_cases.append(("h-exc %s %s %s" % (sx, G.hx(path), G.hx(q)), res, case))
             ctx.count((sx, path, q), kind != "valid" or bool(q), tag="%s|%s|%s" % (kind, pcls, verdict),
                       sample={"path": path, "query": q, "outcome": impl[:60]})
             # the same request behind the function middleware and with gzip (oracle only)
@@ -205,6 +243,31 @@ def explore(ctx, tier, search=False):
             ctx.tags["model:resolved"] += 1
         adj.append((line, impl, meta))
     ctx.correspond("BaseHandler.__call__ outcome (class, kind, whole body)", adj)
+    # which exception class the guarded region raises: the model's `Exc` constructor vs the class named by the traceback
+    # of the error document.  Where the model says `unspecified` only the table is filled.
+    outs = common.run_driver([c[0] for c in exc_cases])
+    adj = []
+    for (line, res, meta), mod in zip(exc_cases, outs):
+        cls = impl_exc_class(res)
+        if res["status"] == 200:
+            kind = G.KIND_OF_DESC.get(res["cdesc"])
+            impl = "ok:%s" % (kind or "other")
+        else:
+            impl = "err:%s" % cls
+        key = "raised|model=%s|impl=%s" % (mod.split(":", 1)[1] if mod.startswith("err:") else "-", cls or "-")
+        if mod.startswith("err:") or cls:
+            ctx.tags[key] += 1
+            exc_examples.setdefault(key, "%s?%s" % (meta["path"], meta["query"]))
+        if mod == "err:unspecified":
+            impl = mod
+        adj.append((line, impl, meta))
+    ctx.correspond("exception class raised inside the guarded region (Exc constructor vs traceback of the error document)", adj)
+    for key in sorted(exc_examples):
+        ctx.notes.append("exception-class coverage %s: %d, e.g. %s" % (key, ctx.tags[key], exc_examples[key]))
+    reachable = ["ValueError", "ConstraintExpressionError", "KeyError", "AttributeError", "unspecified"]
+    missing = [e for e in reachable if not any(k.startswith("raised|model=%s|" % e) for k in exc_examples)]
+    ctx.notes.append("exception-class coverage: Exc constructors produced by `guarded` reached in this run: %s; not reached: %s" % (
+        ", ".join(e for e in reachable if e not in missing), ", ".join(missing) or "none"))
     for k, v in ctx.notes_count.items():
         ctx.notes.append("%s: %d" % (k, v))
     ctx.notes_count.clear()
@@ -213,8 +276,9 @@ def explore(ctx, tier, search=False):
 def run(ctx):
     ctx.rule = ("per generated dataset (arrays, structures, grids, flat sequences): 10 valid CEs and 2..6 CEs per fault "
                 "kind (unknown variable, non-numeric / over-long / negative / inverted / out-of-range hyperslab, too many "
-                "indices, unbalanced brackets or parentheses, unknown function, wrong operand type, bad operator, percent "
-                "escapes, dap4.ce, byte-level mutation) x paths with known / unmodelled / no / unknown extension; a case is "
+                "indices, unbalanced brackets or parentheses, unknown function, wrong operand type, operands that are not "
+                "Python literals, bad operator, function call combined with a faulty clause or argument, bad paths through "
+                "the nested structure, percent escapes, dap4.ce, byte-level mutation) x paths with known / unmodelled / no / unknown extension; a case is "
                 "non-trivial unless it is the valid empty query; distinct by (dataset, path, query)")
     ctx.assumptions = ["webob Request/Response plumbing is trusted; the body is read through Response.body",
                        "inside the guarded region the model leaves Arrayterator's treatment of invalid hyperslabs and "
